@@ -13,6 +13,31 @@ CLAIMED = {
         note='bounds: line <= 9 bytes (quick) / 12 (thorough); std callees are contract models; MIR of nightly rustc; '
              'symbolic bytes are ASCII (non-ASCII at enumerated positions)',
         technique='symbolic execution of rustc MIR + SMT (z3, cvc5 cross-check), native replay'),
+    'C01': dict(
+        text='Bounded symbolic model checking of the real code: `preprocess` (Pp::run_internal, iterate_directive, execute_directive, '
+             'format_directive_output, IOCtx, TagState, detect_from, add_line) is executed from rustc MIR on symbolic source files '
+             '(line menus with symbolic bytes, LF/CRLF, final newline) inside symbolic file-system and process models and compared '
+             'with the reference semantics of DESIGN.md 4.1: verdict, output bytes, temp bytes, command lines. The reference semantics '
+             'is pinned to the repository golden fixtures; counterexamples are replayed with the real binary.',
+        ref='DESIGN.md 4, 5 (C01)',
+        note='bounds: 0-3 lines (quick) / up to 4 (thorough) over the stated menus; one source per run (composition over files is C02); '
+             'FS/process behaviour is a contract model; input domain D1-D12',
+        technique='symbolic execution of rustc MIR + SMT (z3, cvc5 cross-check) against an executable reference semantics, native replay'),
+    'C13': dict(
+        text='2-safety by self-composition on the real code: `preprocess` is executed symbolically twice (option on / off) on the same '
+             'symbolic source and world; outputs must be equal up to one final line ending, temp files and verdict equal, and a source '
+             'ending in a text line must end with / without the line ending; includes on->off histories in Build and --needed mode.',
+        ref='DESIGN.md 5 (C13)',
+        note='bounds as C01; commands deterministic (D8); the -n flag mapping in main.rs is not part of this check',
+        technique='symbolic execution of rustc MIR, self-composition, SMT (z3 + cvc5), native replay'),
+    'C14': dict(
+        text='Bounded symbolic model checking of TagState::{create, try_store, inject_tags, has_tags} and replace_line_ending from MIR: '
+             'operation sequences with symbolic tag names, contents and target lines, with the HashMap iteration order as a fork point, '
+             'compared step by step with an order-free reference model of the tag rules.',
+        ref='DESIGN.md 5 (C14)',
+        note='bounds: 1-3 tags, names 1-2 bytes over {A,B}, contents <=3 bytes over {A,B,LF,CR}, lines <=6 bytes over {A,B,x}; HashMap modelled as '
+             'association list with every iteration order; whole-file tag paths (capture, EOF error) are covered by C01',
+        technique='symbolic execution of rustc MIR + SMT (z3, cvc5 cross-check), native replay'),
 }
 
 PENDING_REASON = 'check not built yet in this revision (under construction, see DESIGN.md 9); nothing is claimed'
